@@ -26,7 +26,7 @@ def publish_raw_start(w, sm_arn, data, message_id=None, definition=None):
 
 
 def run_monitored(case, schedule=(), want=("lifecycle", "ack", "history", "surface"), seed=0, store="file", tick=1e-6,
-                  starts=None, n_engines=1, max_steps=4000, tz="UTC", split=False, orphan_retention_ms=3000):
+                  starts=None, n_engines=1, max_steps=4000, tz="UTC", split=False, orphan_retention_ms=3000, probe=None):
     """
     case: dict(definition, input, oracle, type).  starts: list of dict(mode="api"|"raw"|"raw-id", input=..., name=...).
     -> dict(fails={monitor: [(bucket, detail)]}, info={...}, world closed)
@@ -104,6 +104,8 @@ def run_monitored(case, schedule=(), want=("lifecycle", "ack", "history", "surfa
         out["info"]["histories"] = {a: M.engine_history(w, a) for a in started} if "history" in want else {}
         out["info"]["requests"] = {fn: [dict(r) for r in wk.requests] for fn, wk in w.workers.items()}
         out["info"]["n_notifications"] = len(w.notifications)
+        if probe is not None:
+            out["info"]["probe"] = probe(w, list(started))
     finally:
         w.close()
     return out
@@ -132,7 +134,10 @@ def cases_with_schedules(cfg=None, max_sched=40, multi=True):
         if draw(st.booleans()):
             sched = [c if draw(st.integers(0, 2)) == 0 else 0 for c in sched]
         starts = [{"mode": "api", "input": case["input"], "name": "e1"}]
-        if multi:
+        # task behaviour that depends on the attempt number is keyed by (function, payload): concurrent executions of the
+        # same machine would share the attempt counters, so such cases run a single execution
+        attempt_dependent = any(len(seq) > 1 for f in case["oracle"].values() for seq in [f.get("seq", [])] + list((f.get("by_key") or {}).values()))
+        if multi and not attempt_dependent:
             extra = draw(st.integers(0, 2))
             for k in range(extra):
                 mode = draw(st.sampled_from(["api", "api", "raw-id", "raw"]))
